@@ -159,7 +159,7 @@ Proof.
     unfold eword_ok. cbn [fst snd ofield_ok]. split.
     { split; intros H; vm_compute in H; intuition discriminate. }
     split; [exact I|]. split. { split; intros H; vm_compute in H; intuition discriminate. }
-    split. { cbn [expr_wf word_wf]. repeat split; try discriminate; try (vm_compute; reflexivity).
+    split. { cbn [expr_wf word_wf]. split; [split; [vm_compute; discriminate|split; [vm_compute; reflexivity|]]|reflexivity].
              apply Nat.ltb_lt; vm_compute; reflexivity. }
     intros t [= <-]. left; reflexivity.
   - intros H; cbn in H; intuition discriminate.
